@@ -153,7 +153,77 @@ pub fn check(s: &Scenario) -> CheckResult {
     let pid_input = rc_ref_cell_reference(Scripted::<State>::new());
     let mut pid = rrtk::streams::control::CommandPID::new(pid_input, Command::new(PositionDerivative::Position, 0.0), PositionDerivativeDependentPIDKValues::new(PIDKValues::new(1.0, 0.0, 0.0), PIDKValues::new(1.0, 0.0, 0.0), PIDKValues::new(1.0, 0.0, 0.0)));
     ensure!(pid.get_last_request().is_none(), "C15/command-pid/last-request", "a new CommandPID reports the last request {:?}", pid.get_last_request());
+    // two terminals, one connected to nothing and one connected to a third, mirror the settable's set/follow/stop/update ops on
+    // both of their settable halves (Datum<State> and Datum<Command>); the followed getters replay the scripted getters' outputs
+    let t_state_getters: Vec<Reference<Scripted<Datum<State>>>> = (0..2).map(|_| rc_ref_cell_reference(Scripted::<Datum<State>>::new())).collect();
+    let t_command_getters: Vec<Reference<Scripted<Datum<Command>>>> = (0..2).map(|_| rc_ref_cell_reference(Scripted::<Datum<Command>>::new())).collect();
+    let (t_free, t_linked, t_partner) = (Terminal::<E>::new(), Terminal::<E>::new(), Terminal::<E>::new());
+    connect(&t_linked, &t_partner);
+    let terminals = [("unconnected", &t_free), ("connected", &t_linked)];
+    let t_state = |v: i64, t: i64| Datum::new(Time(t), State::new_raw((v % 1000) as f32, (v % 7) as f32, (v % 13) as f32));
+    let t_command = |v: i64, t: i64| Datum::new(Time(t), Command::new([PositionDerivative::Position, PositionDerivative::Velocity, PositionDerivative::Acceleration][(v.unsigned_abs() % 3) as usize], (v % 1000) as f32));
+    let mut t_last: Option<(Datum<State>, Datum<Command>)> = None;
+    let mut t_following: Option<usize> = None;
     for (i, op) in s.ops.iter().enumerate() {
+        match *op {
+            Op::Set(v, _) => {
+                for (_, t) in terminals {
+                    let r1 = t.borrow_mut().set(t_state(v, v ^ 5));
+                    let r2 = t.borrow_mut().set(t_command(v, v ^ 9));
+                    ensure!(r1.is_ok() && r2.is_ok(), "C15/terminal/set-failed", "op {}: Terminal::set returned {:?} / {:?}", i, r1, r2);
+                }
+                t_last = Some((t_state(v, v ^ 5), t_command(v, v ^ 9)));
+            }
+            Op::Follow(k) => {
+                let k = k as usize % 2;
+                for (_, t) in terminals {
+                    <Terminal<E> as Settable<Datum<State>, E>>::follow(&mut t.borrow_mut(), to_dyn!(Getter<Datum<State>, E>, t_state_getters[k].clone()));
+                    <Terminal<E> as Settable<Datum<Command>, E>>::follow(&mut t.borrow_mut(), to_dyn!(Getter<Datum<Command>, E>, t_command_getters[k].clone()));
+                }
+                t_following = Some(k);
+            }
+            Op::StopFollowing => {
+                for (_, t) in terminals {
+                    <Terminal<E> as Settable<Datum<State>, E>>::stop_following(&mut t.borrow_mut());
+                    <Terminal<E> as Settable<Datum<Command>, E>>::stop_following(&mut t.borrow_mut());
+                }
+                t_following = None;
+            }
+            Op::Update | Op::UpdateFailing => {
+                let mut want = Ok(());
+                if let Some(k) = t_following {
+                    match gout[k] {
+                        GOut::Present(v, t) => t_last = Some((t_state(v, t), t_command(v, t))),
+                        GOut::Absent => {}
+                        GOut::Err(e) => want = Err(mk_err(e)),
+                    }
+                }
+                for (name, t) in terminals {
+                    let r = t.borrow_mut().update();
+                    ensure!(r == want, "C15/terminal/update-return", "op {}: the {} terminal's update returned {:?}, expected {:?} (following {:?}, getter outputs {:?})", i, name, r, want, t_following, gout);
+                }
+            }
+            Op::GetterOut(k, o) => {
+                let k = k as usize % 2;
+                // the outer stamp (of the getter's datum) is dropped by following; the inner datum is what gets set
+                t_state_getters[k].borrow_mut().cur = match o {
+                    GOut::Present(v, t) => Ok(Some(Datum::new(Time(t ^ 0x33), t_state(v, t)))),
+                    GOut::Absent => Ok(None),
+                    GOut::Err(e) => Err(mk_err(e)),
+                };
+                t_command_getters[k].borrow_mut().cur = match o {
+                    GOut::Present(v, t) => Ok(Some(Datum::new(Time(t ^ 0x55), t_command(v, t)))),
+                    GOut::Absent => Ok(None),
+                    GOut::Err(e) => Err(mk_err(e)),
+                };
+            }
+            _ => {}
+        }
+        for (name, t) in terminals {
+            let got_state = <Terminal<E> as Settable<Datum<State>, E>>::get_last_request(&t.borrow());
+            let got = (got_state, <Terminal<E> as Settable<Datum<Command>, E>>::get_last_request(&t.borrow()));
+            ensure!(got == (t_last.map(|l| l.0), t_last.map(|l| l.1)), "C15/terminal/last-request", "op {} ({:?}): the {} terminal's last requests are {:?}; the most recent successfully set state and command are {:?} (following {:?}, getter outputs {:?})", i, op, name, got, t_last, t_following, gout);
+        }
         if let Op::Set(v, _) | Op::CSet(v) = *op {
             // the first sets repeat the command the controller was built with: still a successful set with that argument
             let cmd = if i < 2 { Command::new(PositionDerivative::Position, 0.0) } else { Command::new([PositionDerivative::Position, PositionDerivative::Velocity, PositionDerivative::Acceleration][(v.unsigned_abs() % 3) as usize], (v % 1000) as f32) };
@@ -355,7 +425,7 @@ fn op() -> BoxedStrategy<Op> {
 pub struct C15;
 impl Property for C15 {
     const ID: &'static str = "C15";
-    const RULE: &'static str = "random op histories of 0..40 operations over one world containing a settable whose impl_set fails on demand and records what it receives, a ConstantGetter, two scripted getters, a scripted clock that can err, a TimeGetterFromGetter, and a GetterFromHistory (each of the four constructors) over a history that returns the queried time as its value stamped with garbage, absent at multiples of 7: ops = set succeeding/failing, follow, stop_following, update, change of a followed getter's output (present/absent/error), clock advance, clock error on/off, set_delta, set_time, adapter update; i64 clock values and offsets within +-2^61. Oracle after every op: last request, exact sequence of forwarded values, update return values, ConstantGetter value/time, adapter value = history(now+offset) restamped now with the documented offset per constructor/set_delta/set_time (unchanged when the clock errs), time getter = getter timestamp / FromNone / error. Non-trivial = a failed set after a successful one, a re-follow, or a set_time after the clock moved; distinct = (constructor, op kind sequence).";
+    const RULE: &'static str = "random op histories of 0..40 operations over one world containing a settable whose impl_set fails on demand and records what it receives, a ConstantGetter, a CommandPID, an unconnected and a connected Terminal (both settable halves, mirroring the settable's ops), two scripted getters, a scripted clock that can err, a TimeGetterFromGetter, and a GetterFromHistory (each of the four constructors) over a history that returns the queried time as its value stamped with garbage, absent at multiples of 7: ops = set succeeding/failing, follow, stop_following, update, change of a followed getter's output (present/absent/error), clock advance, clock error on/off, set_delta, set_time, adapter update; i64 clock values and offsets within +-2^61. Oracle after every op: last request, exact sequence of forwarded values, update return values, ConstantGetter value/time, adapter value = history(now+offset) restamped now with the documented offset per constructor/set_delta/set_time (unchanged when the clock errs), time getter = getter timestamp / FromNone / error. Non-trivial = a failed set after a successful one, a re-follow, or a set_time after the clock moved; distinct = (constructor, op kind sequence).";
     type Scenario = Scenario;
     fn strategy(_tier: Tier) -> BoxedStrategy<Scenario> {
         (0u8..4, big(), big(), proptest::bool::weighted(0.1), gen::with_runs(proptest::collection::vec(op(), 0..=40).boxed(), 38, 40)).prop_map(|(ctor, ctor_arg, clock0, clock_err0, ops)| Scenario { ctor, ctor_arg, clock0, clock_err0, ops }).boxed()
